@@ -349,6 +349,9 @@ def run_check(prop, modname, tier, seed=0, only=None, nproc=None, verbose=False)
     for r in inconclusive:
         print("INCONCLUSIVE:", r, file=sys.stderr)
     if verbose:
+        for v in unreproduced[:3]:
+            print("UNREPRODUCED", v.clause, json.dumps(core._plain(v.info), default=str)[:800], "model", v.model,
+                  "choices", [(n, l) for (n, i, l) in v.choices], file=sys.stderr)
         for e in total.errors[:5]:
             print("ERR", json.dumps(e, default=str)[:1500], file=sys.stderr)
     return rc
